@@ -5,7 +5,7 @@ for _i in range(1, 21):
 claim('C04', 'ast + CFG must-pass-through, provenance of trie keys and handler node, return-value typestate',
       'Decides structural necessary conditions of C04 on every path of the dispatch/attach/detach/reply code: handler node '
       'comes from longest_prefix(name) on the attach trie; all attach/detach keys are Name.normalize(arg); duplicate attach '
-      'raises; detach deletes; reply sends only on the not-expired edge and returns a truthful bool. Does not decide pygtrie '
+      'raises; detach deletes; reply sends only on the not-expired edge and returns a truthful bool. a match is never decided by the truthiness of the matched key (the empty name is a key). Does not decide pygtrie '
       'semantics or timing values.',
       'Python semantics as modelled by the CFG builder; pygtrie longest_prefix; user handlers do not raise or re-enter')
 
@@ -65,7 +65,7 @@ claim('C18', 'exception-escape set of the handler, CFG ordering (no state write 
       'need_fetch set exactly with a raise and on_missing_data fires iff need_fetch on every path; aggregate is '
       'max(agg_sv.get(k,0), v) and a suppression period starts from a copy of its first vector; on_timer sends iff necessary, '
       'suppression overridden only by agg_sv.get(id,0) < local over all local entries, steady state never suppressed; new_data '
-      '+1/own id/timer armed; sync Interest carries every local entry. Does not decide timers or suppression timing.',
+      '+1/own id/timer armed; sync Interest carries every local entry. the missing-data callback is the last effect of the handler (no timer / state write after it); Does not decide timers or suppression timing.',
       'user callback on_missing_data does not raise; asyncio timer behaviour')
 
 claim('C14', 'default-argument lint, finite-domain dispatch evaluation over SignatureType, must-pass-through and provenance of key material, wiring checks of the validator composition',
@@ -94,13 +94,14 @@ claim('C16', 'provenance of each certificate field, linear size algebra on the h
       'marker of the same encode; outer TLV: buffer = TL(DATA)+TL(n)+n, type at 0, length n at TL(DATA), value[0:n] at TL(DATA)+TL(n) '
       'with n = len(value) - shrink (symbolic equality); wrappers pass the right issuer component / period; certificate models keep '
       'SignatureInfo at 0x16 with ValidityPeriod 0xFD{0xFE,0xFF}; parse_certificate checks the Data type. '
+      'issuing signers and verifiers agree on type, scheme parameters and hash (table shared with C02). '
       'Does not decide signature validity or time-zone handling.',
       'NDN certificate format v2 numbers; datetime.strftime semantics')
 
 claim('C10', 'reaching definitions / provenance at the dispatch block, nullable-field narrowing of the Nack discriminator, must-pass-through on the token test, extracted NDNLPv2 model tables',
       'Decides: everything dispatched after unwrapping derives from the received packet or the envelope Fragment and its type from '
       'parse_tl_num(Fragment), one shared dispatch block; the Nack reason reaching _on_nack/InterestNack is the envelope field or NONE, '
-      'and the Nack discriminator cannot be None when a Nack header is present (both front-ends); the PIT token flows envelope -> '
+      'and the Nack discriminator cannot be None when a Nack header is present and is tested for presence, not truthiness (NackReason.NONE is 0) (both front-ends); the PIT token flows envelope -> '
       '_on_interest -> reply closure -> LpPacket(pit_token, fragment=data) unmodified, bare send exactly when there is no token '
       '(is None, not truthiness); parse_lp_packet_v2 checks 0x64, ignores unknown headers, rejects frag_index/frag_count with '
       'DecodeError; model type numbers, Fragment last, Nack nesting. Does not decide value-level behaviour for all header combinations.',
@@ -120,7 +121,7 @@ claim('C12', 'CFG must-pass-through on the signer membership test, provenance of
       'Decides: constraints are evaluated also on the bound-tag path (the defect that let /a/bar sign /b/bar); check() matches the key '
       'name under the bindings produced by the packet match and answers True only through `key node in packet node.sign_cons`, False '
       'by default; both names are normalised, digest-stripped and may be empty; every signer rule name maps to all node ids of that '
-      'rule, unknown signer raises, every rule-ending node is recorded; compiler pass order. The relation over all schema/name pairs is not decided.',
+      'rule, unknown signer raises, every rule-ending node is recorded; expanding a rule reference lends name and constraints but not signers (rule shared with C11); compiler pass order. The relation over all schema/name pairs is not decided.',
       'as C11')
 
 claim('C13', 'guard-existence and raising-edge analysis against the documented sanity list (read from docs at run time), truthiness lint on integer ids, reachability of schema-error raises, loop progress of top_order',
@@ -138,6 +139,7 @@ claim('C01', 'linear size algebra over the encoder methods (normal-form equality
       'views end at -val); signature shrink bookkeeping and the 253 guard; make_* encode, then shrink iff shrink_size > 0, return that '
       'buffer; make_interest/parse_interest copy the same six InterestParam fields name-to-name and pass name/params/payload through; '
       'the parameters-digest component is type 0x02, length 32, announced as 34 bytes, its buffer is the 32-byte value; VAR-NUMBER tables. '
+      'the digest written into it is computed after the signature over the range ending at the shrunk signature (rules shared with C02); '
       'Does not decide equality of returned values for all names/payloads or the signers themselves.',
       'struct widths; signer.get_signature_value_size() >= real size')
 
@@ -154,7 +156,7 @@ claim('C02', 'extracted model field order vs signed-portion definition, wiring/p
 claim('C07', 'taint/bounds dominance on wire-derived lengths, interprocedural escape sets of the decoders, guard existence for the mandatory Name, decision tables, model order vs format, loop-progress checks',
       'Decides: a Length read from the wire is compared (raising) with the buffer, or with a counter that itself was so compared, before '
       'it bounds a slice or is passed on (two known findings in TlvModel.parse); the five decoders raise only documented decoding '
-      'errors; parse_interest/parse_data refuse a packet without Name and check the outer type; Uint widths {1,2,4,8}; packet models '
+      'errors; parse_interest/parse_data refuse a packet without Name and check the outer type; (the set of Lengths for which a number is returned, explored for 0..17 whatever the shape of the dispatch) Uint widths {1,2,4,8}; packet models '
       'follow the format\'s element order and fixed widths; scan loop: search from the current position, single fields advance, '
       'repeated/map stay, unknown critical raises, every element is skipped by its length; decode loops consume input. '
       'Value equality with a strict reading is not decided.',
@@ -162,7 +164,7 @@ claim('C07', 'taint/bounds dominance on wire-derived lengths, interprocedural es
 
 claim('C08', 'decision-table extraction and comparison with VAR-NUMBER / NonNegativeInteger, linear size algebra per Field class, loop-shape checks on the model walker and metaclass, lint over all 64 extracted models',
       'Decides: the four VAR-NUMBER functions and the four NonNegativeInteger functions implement the shortest-form tables and agree; '
-      'per Field class value normalisations agree and announced == written size symbolically; TlvModel.encoded_length/encode/__eq__ walk '
+      'per Field class value normalisations agree and announced == written size symbolically; container fields name the element field per element by the same template before measuring and before writing; TlvModel.encoded_length/encode/__eq__ walk '
       '_encoded_fields completely in order and the buffer is sized by encoded_length; the metaclass keeps class-body order; every '
       'shipped model has distinct sibling type numbers, resolvable nested models and acyclic nesting; scan-loop critical-bit rule '
       '(shared with C07); map value type check (known finding). Equality after decode for all values / generated classes is not decided.',
